@@ -1,6 +1,7 @@
 import CheetahModel.Proofs.Tables
 import Mathlib.Tactic.NormNum
 import Mathlib.Data.Real.Basic
+import CheetahModel.Proofs.PromoteProofs
 /-!
 # C12 — dtype is preserved and float64 simulations are float64-accurate  (table part + constants)
 
@@ -25,5 +26,32 @@ theorem f32_speed_of_light_error : |(299792448 : ℝ) - 299792458| / 299792458 >
 
 /-- and a decimal such as 0.1 routed through float32 (0.100000001490116…) is off by more than 1e-9 -/
 theorem f32_roundtrip_tenth : |(0.100000001490116119384765625 : ℝ) - 0.1| > 1e-9 := by norm_num [abs_of_pos]
+
+/-! ### PyTorch's type promotion over the operand kinds Cheetah mixes (`Promote.lean`, tied to torch by op `prom`) -/
+
+/-- **a consistently `float64` computation stays `float64`**: in any arithmetic expression whose tensor leaves — dimensioned
+or zero-dimensional — are all `float64` (Python literals unrestricted), every tensor-valued result is `float64` -/
+theorem f64_in_f64_out (d : Prom.DT) (t : Prom.Tree) (h : t.AllF64) :
+    (t.eval d).kind = .py ∨ (t.eval d).dt = .f64 := Prom.f64_closed d t h
+
+/-- … and nothing in it depends on `torch.get_default_dtype()` -/
+theorem f64_independent_of_default (d1 d2 : Prom.DT) (t : Prom.Tree) (h : t.AllF64) : t.eval d1 = t.eval d2 :=
+  Prom.f64_default_free d1 d2 t h
+
+/-- promotion does not depend on the order of the operands -/
+theorem promotion_commutes (d : Prom.DT) (a b : Prom.Opd) : Prom.resultType d a b = Prom.resultType d b a :=
+  Prom.resultType_comm d a b
+
+/-- the mechanisms behind the float32 findings: a zero-dimensional `float64` setting does not widen `float32` particles; a
+zero-dimensional `float32` setting is silently widened (after its value was rounded); a Python float makes an integer
+tensor a tensor of the *default* dtype -/
+theorem promotion_traps (d : Prom.DT) :
+    Prom.resultType d ⟨.dim, .f32⟩ ⟨.zero, .f64⟩ = .f32 ∧ Prom.resultType d ⟨.dim, .f64⟩ ⟨.zero, .f32⟩ = .f64 ∧
+    (d.isFloat = true → Prom.resultType d ⟨.dim, .i64⟩ ⟨.py, .f64⟩ = d) :=
+  ⟨Prom.zero_dim_does_not_widen d, Prom.zero_dim_is_widened d, Prom.python_float_uses_default d⟩
+
+/-- non-vacuity: `length * particles + 0.5 * k1` with float64 tensors -/
+example : Prom.Tree.AllF64 (.node (.node (.leaf ⟨.zero, .f64⟩) (.leaf ⟨.dim, .f64⟩)) (.node (.leaf ⟨.py, .f64⟩) (.leaf ⟨.zero, .f64⟩))) := by
+  simp [Prom.Tree.AllF64]
 
 end C12
